@@ -32,10 +32,10 @@ package sx
 
 import (
 	"fmt"
-	"os"
 	"go/constant"
 	"go/token"
 	"go/types"
+	"os"
 	"reflect"
 	"unsafe"
 
